@@ -78,6 +78,19 @@ func (P *Program) synthContract(inf *inferred) *Contract {
 		txt := "result1 != nil || !" + inf.ctxName + ".DontAutoCreate || result0.DontAutoCreate"
 		c.Ensures = append(c.Ensures, &Clause{Kind: "ensures", Label: "keeps-mode", Text: txt, Expr: mustParse(txt)})
 	}
+	P.cmu.RLock()
+	ov := P.overlays[c.FuncName]
+	P.cmu.RUnlock()
+	if ov != nil {
+		c.Sites, c.Loops, c.Lets, c.Props = ov.Sites, ov.Loops, ov.Lets, ov.Props
+		c.Requires = append(c.Requires, ov.Requires...)
+		c.Assumes = append(c.Assumes, ov.Assumes...)
+		for _, f := range []string{"nosafety", "nopre"} {
+			if ov.flag(f) {
+				c.Flags[f] = true
+			}
+		}
+	}
 	res := fn.Signature.Results()
 	for i := 0; i < res.Len(); i++ {
 		if i < len(inf.fresh) && inf.fresh[i] {
@@ -125,7 +138,21 @@ func (P *Program) inferFramesWith(roots []*ssa.Function, timeoutMs int, override
 		if top.Pkg == nil || !P.isYq(top.Pkg.Pkg.Path()) {
 			return
 		}
-		hand := P.contractFor(f) != nil
+		// an overlay contract (site assertions and loop invariants only, flag overlay) leaves the frame to the
+		// inference: the function is inferred like one without a contract and the overlay's clauses ride along
+		// on the synthesised contract
+		if hc := P.contractFor(f); hc != nil && hc.flag("overlay") {
+			P.cmu.Lock()
+			if P.overlays == nil {
+				P.overlays = map[string]*Contract{}
+			}
+			P.overlays[P.relName(f)] = hc
+			P.cmu.Unlock()
+		}
+		P.cmu.RLock()
+		_, isOverlay := P.overlays[P.relName(f)]
+		P.cmu.RUnlock()
+		hand := P.contractFor(f) != nil && !isOverlay
 		if hand {
 			if handSeen[f] {
 				return
